@@ -224,6 +224,122 @@ def judge(ctx, recs, what, batch=250000):
 
 
 # ---------------------------------------------------------------------------------
+# scale cases (ArrayMatch.tla section "scale"; designed by ArrayMatchMC!ChooseScale)
+# ---------------------------------------------------------------------------------
+def run_scale_case(args):
+    """execute one scale case; the large results are recorded in the compressed form the laws judge:
+    match -> block run-length encoding (AMBlockRLE) for the period of the second array; unique / rem_dup -> the
+    returned indices (at most one per distinct value) and the values mapped back"""
+    import esutil.numpy_util as nu
+    i, c = args
+    rep = c["rep"]
+    obs, excs, ncalls = [], [], 0
+    if c["kind"] == "smatch":
+        g1, g2 = c["g1"], c["g2"]
+        v1, v2 = R.gen_abstract(g1), R.gen_abstract(g2)
+        lo1, hi1 = int(g1["o"]), int(g1["o"]) + int(g1["st"]) * (int(g1["w"]) - 1)
+        base, step = R.dense_base(rep["t1"], rep["p1"], lo1, hi1)
+        x1, b1 = R.build_np(R.dense_concrete(v1, rep["t1"], base, step), rep["t1"], rep["o1"], rep["l1"])
+        x2, b2 = R.build_np(R.dense_concrete(v2, rep["t2"], base, step), rep["t2"], rep["o2"], rep["l2"])
+        del v1, v2
+        calls = [("match", nu.match, {}), ("match_multi", nu.match_multi, {})]
+        if g1["m"] == 1 and g1["s"] == 0 and not g1["rev"]:
+            calls += [("match_presorted", nu.match, {"presorted": True}),
+                      ("match_multi_presorted", nu.match_multi, {"presorted": True})]
+        before = _snap(b1 + b2) if x2.size < 200000 else None
+        for fn, f, kw in calls:
+            err, res, exc = _call(f, x1, x2, **kw)
+            ncalls += 1
+            o = {"fn": fn, "err": err, "nrle": 0, "rle": []}
+            if err == "none":
+                try:
+                    enc = R.block_rle(res[0], res[1], int(g2["w"]))
+                    if len(res) != 2 or enc is None:
+                        raise ValueError
+                    o["nrle"], o["rle"] = enc
+                except Exception:  # noqa - not a pair of equally long index arrays: nothing the spec accepts
+                    o["nrle"], o["rle"] = 1, [{"b0": -1, "cnt": 1, "i1": [], "i2": []}]
+            obs.append(o); excs.append(exc)
+        frame_bad = int(before is not None and _snap(b1 + b2) != before)
+    else:
+        ga, gf = c["ga"], c["gf"]
+        va, vf = R.gen_abstract(ga, ga["struct"]), R.gen_abstract(gf)
+        lo1, hi1 = int(ga["o"]), int(ga["o"]) + int(ga["st"]) * (int(ga["w"]) - 1)
+        base, step = R.dense_base(rep["t1"], rep["p1"], lo1, hi1)
+        a, b1 = R.build_np(R.dense_concrete(va, rep["t1"], base, step), rep["t1"], rep["o1"], rep["l1"])
+        finj = R.single_injection(rep["t2"], rep["p2"], int(gf["w"]))
+        table = [finj(v, 0) for v in range(1, int(gf["w"]) + 1)]
+        if any(not x < y for x, y in zip(table, table[1:])) or not R.in_range(rep["t2"], table):
+            raise MachineryError("flag placement %s/%s cannot hold %d levels" % (rep["t2"], rep["p2"], gf["w"]))
+        fl, b2 = R.build_np(np.array(table, dtype=R.dtype_for(rep["t2"], "native", []))[vf - 1], rep["t2"], rep["o2"], rep["l2"])
+
+        def back(x):      # concrete values -> abstract (0: not a lattice value)
+            out = []
+            for item in np.atleast_1d(x).tolist():
+                q = item - base if isinstance(item, int) else item / step - base
+                out.append(int(q) if q == int(q) else 0)
+            return out
+        before = _snap(b1 + b2)
+        for fn, f, args_, kw in (("unique", nu.unique, (a,), {}), ("unique_values", nu.unique, (a,), {"values": True}),
+                                 ("rem_dup", nu.rem_dup, (a, fl), {}), ("rem_dup_values", nu.rem_dup, (a, fl), {"values": True})):
+            err, res, exc = _call(f, *args_, **kw)
+            ncalls += 1
+            o = _obs(fn, err)
+            if err == "none":
+                try:
+                    if fn == "unique_values":
+                        o["vals"] = back(res)
+                    elif fn == "rem_dup_values":
+                        o["i1"], o["vals"] = _ints(res[0]), back(res[1])
+                        if len(res) != 2:
+                            raise ValueError
+                    else:
+                        o["i1"] = _ints(res)
+                except Exception:  # noqa
+                    o["i1"] = [-1]
+            obs.append(o); excs.append(exc)
+        frame_bad = int(_snap(b1 + b2) != before)
+    # identical observations of several entry points are judged once (fns: all the entry points that returned it)
+    dobs, index = [], {}
+    for o, exc in zip(obs, excs):
+        key = repr({k: v for k, v in o.items() if k != "fn"}) if c["kind"] == "smatch" else repr(o)
+        if key not in index:
+            index[key] = len(dobs)
+            dobs.append((o, exc, [o["fn"]]))
+        else:
+            dobs[index[key]][2].append(o["fn"])
+    return {"id": i, "c": c, "reps": [rep], "obs": [o for o, _, _ in dobs], "exc": [e for _, e, _ in dobs],
+            "fns": [f for _, _, f in dobs], "ncalls": ncalls, "frame_bad": frame_bad}
+
+
+def scale_class(c):
+    n = c["g2"]["n"] if c["kind"] == "smatch" else c["ga"]["n"]
+    return "scale" + ("/n>=1e6" if n >= 10 ** 6 else "/n>=2^16" if n >= 65536 else "")
+
+
+def judge_scale(ctx, recs, what):
+    rejects = tracecheck.validate(ctx, "ArrayMatchTrace.tla", [{"id": r["id"], "c": r["c"], "reps": r["reps"], "obs": r["obs"]} for r in recs],
+                                  what=what, shard_size=40)
+    byid = {r["id"]: r for r in recs}
+    for rid in sorted(rejects):
+        r = byid[rid]
+        for k, fn, cl in rejects[rid]:
+            if cl in MACHINERY_CLAUSES:
+                raise MachineryError("ArrayMatchTrace rejects the scale record itself (%s): %s" % (cl, r["c"]))
+            o = dict(r["obs"][k - 1])
+            if "rle" in o:          # keep the replay file small
+                o["rle"] = [dict(e, i1=e["i1"][:8], i2=e["i2"][:8]) for e in o["rle"][:3]]
+            else:
+                o["i1"], o["vals"] = o["i1"][:16], o["vals"][:16]
+            for fn2 in r["fns"][k - 1]:
+                ctx.violation("%s|%s|%s" % (ENTRY.get(fn2, fn2), cl, scale_class(r["c"])),
+                              "numpy_util.%s result on a large / dense case not allowed by the laws of ArrayMatch.tla: clause %s"
+                              % (ENTRY.get(fn2, fn2), cl),
+                              {"kind": "scale", "c": r["c"], "id": r["id"], "observed": [dict(o, fn=fn2, exc=r["exc"][k - 1])]})
+    return rejects
+
+
+# ---------------------------------------------------------------------------------
 def _fits(c, rep, K):
     try:
         realise(c, rep, K)
@@ -290,16 +406,20 @@ BOUNDS = {
                     MaxLenD=4, DVals=set(range(1, 5)), FVals={1, 2, 3}, NReps=4),
         mech=dict(MaxLen1=3, MaxLen2=2, RepLen2=1, A1Vals=set(range(2, 6)), A2Vals=set(range(1, 7)),
                   MaxLenD=4, DVals={1, 2, 3}, FVals={1, 2}, NReps=0),
-        shards=dict(match=2, dedup=1), seeded=(400, 40, 60)),
+        shards=dict(match=2, dedup=1), seeded=(400, 40, 60),
+        scale=dict(ScaleN2={1023, 1024, 1025, 65535, 65536, 65537, 999999, 1000000, 1048577},
+                   ScaleND={65535, 65536, 100003}, ScaleReps=1, ScaleBigStride=3), laws=dict(LawLen=2, GenN=6)),
     "thorough": dict(
         export=dict(MaxLen1=4, MaxLen2=4, RepLen2=2, A1Vals=set(range(2, 7)), A2Vals=set(range(1, 8)),
                     MaxLenD=5, DVals=set(range(1, 5)), FVals={1, 2, 3}, NReps=6),
         mech=dict(MaxLen1=3, MaxLen2=3, RepLen2=2, A1Vals=set(range(2, 7)), A2Vals=set(range(1, 8)),
                   MaxLenD=4, DVals=set(range(1, 5)), FVals={1, 2, 3}, NReps=0),
-        shards=dict(match=8, dedup=4), seeded=(4000, 150, 250)),
+        shards=dict(match=8, dedup=4), seeded=(4000, 150, 250),
+        scale=dict(ScaleN2={1023, 1024, 1025, 65535, 65536, 65537, 999999, 1000000, 1048575, 1048576, 1048577, 2097153, 3145728},
+                   ScaleND={65535, 65536, 65537, 100003, 1048577}, ScaleReps=3, ScaleBigStride=1), laws=dict(LawLen=3, GenN=7)),
 }
 ALL_ACTIONS = ["ChooseA1", "ChooseA2", "ChooseArr", "ChooseFlags", "MSort", "MGuard", "MSearch", "MClamp", "MFilter",
-               "UBegin", "UStep", "UEnd", "RBegin", "RStep", "REnd"]
+               "UBegin", "UStep", "UEnd", "RBegin", "RStep", "REnd", "ChooseGen"]
 
 
 class Coverage:
@@ -348,17 +468,20 @@ def run(ctx):
     bad = R.selftest()
     if bad:
         raise MachineryError("placements not order preserving under numpy's ordering: %s" % bad[:5])
-    fixed = dict(ClampMode="code", SeedSorted=True, DoExport=False, ShardCount=1, ShardIndex=0)
+    noscale = dict(ScaleN2=set(), ScaleND=set(), ScaleReps=0, ScaleSeed=0, ScaleBigStride=1)
+    fixed = dict(ClampMode="code", SeedSorted=True, DoExport=False, ShardCount=1, ShardIndex=0, **dict(noscale, **B["laws"]))
     # 1. design level: the implementation-shaped mechanisms refine the property on every case of the space
     ctx.tlc("ArrayMatchMC.tla", what="mechanisms refine property (exhaustive)",
             cfg_text=cfg(constants=dict(B["mech"], **fixed),
-                         invariants=["MechRefines", "MechIsRef", "RefAccepted", "RefRejects", "RefDedup"]),
+                         invariants=["MechRefines", "MechIsRef", "RefAccepted", "RefRejects", "RefDedup",
+                                     # the laws that decide large cases from small ones (ArrayMatch.tla, section "scale")
+                                     "LinearAgrees", "ConcatLaw", "BlockJudgeAgrees", "GenDedupAgrees"]),
             workers=16, require=ALL_ACTIONS, timeout=3000)
     # 1b. non-vacuity of MechRefines: the deviating variants must violate it (the first one is the pinned unique())
     small = dict(B["mech"], MaxLen1=2, MaxLen2=2, MaxLenD=3)
     for what, dev in (("unique() seeded from arr[0]", dict(SeedSorted=False)), ("match() without the high-end clamp", dict(ClampMode="never"))):
         r = ctx.tlc("ArrayMatchMC.tla", what="self-test: %s violates MechRefines" % what,
-                    cfg_text=cfg(constants=dict(small, **dict(fixed, **dev)), invariants=["MechRefines"]),
+                    cfg_text=cfg(constants=dict(small, **dict(fixed, GenN=0, **dev)), invariants=["MechRefines"]),
                     workers=4, allow_violation=True, coverage=False)
         if "MechRefines" not in r.violated:
             raise MachineryError("self-test failed: MechRefines not violated by the deviating mechanism (%s)" % what)
@@ -390,6 +513,15 @@ def run(ctx):
 
     def export(task):
         kind, shard, nshards = task
+        if kind == "scale":       # the scale cases only: their sizes, and the seed rotates the design
+            consts = dict(B["export"], **dict(fixed, DoExport=True, MaxLen1=0, MaxLenD=0, ScaleSeed=ctx.seed % 1000, **B["scale"]))
+            r2 = ctx.tlc("ArrayMatchMC.tla", what="export scale cases (large / dense arrays given by generators)",
+                         cfg_text=cfg(constants=consts, next_="NextExport", invariants=["ScaleDesignOK"], constraints=["Export"]),
+                         workers=1, coverage=False, timeout=3000)
+            cases = r2.records.get("SCALE", [])
+            if not cases or r2.garbled:
+                raise MachineryError("export of scale cases failed (%d cases, %d garbled)" % (len(cases), r2.garbled))
+            return cases, None
         off = dict(MaxLenD=0) if kind == "match" else dict(MaxLen1=0)
         r2 = ctx.tlc("ArrayMatchMC.tla", what="export %s cases with representations [part %d/%d]" % (kind, shard + 1, nshards),
                      cfg_text=cfg(constants=dict(B["export"], **dict(fixed, DoExport=True, ShardCount=nshards, ShardIndex=shard, **off)),
@@ -402,11 +534,14 @@ def run(ctx):
         return cases, design
 
     nsh = B["shards"]
-    tasks = [(kind, i, nsh[kind]) for kind in ("match", "dedup") for i in range(nsh[kind])]
-    design, intern = None, {}
+    tasks = [("scale", 0, 1)] + [(kind, i, nsh[kind]) for kind in ("match", "dedup") for i in range(nsh[kind])]
+    design, intern, scale_cases = None, {}, []
     with ThreadPoolExecutor(max(1, min(6, int(os.environ.get("VH_MAX_WORKERS", "16"))))) as ex:
         futs = [ex.submit(export, t) for t in tasks]
         for (kind, shard, _), fut in zip(tasks, futs):
+            if kind == "scale":
+                scale_cases = fut.result()[0]
+                continue
             cases, design = fut.result()
             jobs = []
             for i, c in enumerate(cases, 1):
@@ -430,6 +565,35 @@ def run(ctx):
         process(jobs, "judge replayed %s cases (ArrayMatchTrace)" % kind)
         del jobs
     del pending[:]
+    # 2b. scale cases: executed on the real code, the (compressed) results judged through the laws by TLC
+    scale_cases.sort(key=lambda c: -(c["g2"]["n"] if c["kind"] == "smatch" else 8 * c["ga"]["n"]))      # the long ones first
+    guard = {"big": {c["g2"]["n"] for c in scale_cases if c["kind"] == "smatch" and c["g2"]["n"] >= 999999},
+             "dense8": sum(1 for c in scale_cases if c["kind"] == "smatch" and c["rep"]["t1"] in ("i1", "u1")
+                           and c["g1"]["st"] * (c["g1"]["n"] - 1) >= 128),
+             "dense16": sum(1 for c in scale_cases if c["kind"] == "smatch" and c["rep"]["t1"] in ("i2", "u2")
+                            and c["g1"]["st"] * (c["g1"]["n"] - 1) >= 32768),
+             "dedup": sum(1 for c in scale_cases if c["kind"] == "sdedup")}
+    if not ({999999, 1000000, 1048577} <= guard["big"]) or min(guard["dense8"], guard["dense16"], guard["dedup"]) < 2:
+        raise MachineryError("scale design is vacuous: %s" % guard)
+    ctx.log("executing %d scale cases (second arrays up to %d elements)" % (len(scale_cases), max(guard["big"])))
+    srecs = pmap(run_scale_case, [(state["nid"] + i, c) for i, c in enumerate(scale_cases, 1)], chunk=1)
+    state["nid"] += len(srecs)
+    for r in srecs:
+        ctx.count({k: v for k, v in r["c"].items()})
+        state["ncalls"] += r["ncalls"]
+        state["frame_bad"] += r["frame_bad"]
+    ctx.evaluations += sum(r["ncalls"] - 1 for r in srecs)
+    for r in srecs[:: max(1, len(srecs) // 2)][:2]:
+        ctx.sample({"case": r["c"], "observed": [dict(o, rle=[dict(e, i1=e["i1"][:6], i2=e["i2"][:6]) for e in o["rle"][:2]]) if "rle" in o
+                                                  else dict(o, i1=o["i1"][:6], vals=o["vals"][:6]) for o in r["obs"][:2]]}, cap=10)
+    judge_scale(ctx, srecs, "judge scale cases by the laws (ArrayMatchTrace)")
+    sprobe = next((r for r in srecs if r["c"]["kind"] == "smatch" and r["obs"][0]["err"] == "none" and r["obs"][0]["nrle"] >= 1
+                   and r["obs"][0]["nrle"] == len(r["obs"][0]["rle"]) and r["obs"][0]["rle"][0]["cnt"] >= 2
+                   and len(r["obs"][0]["rle"][0]["i2"]) >= 2 and r["c"]["g2"]["w"] < 2000), None)
+    dsprobe = next((r for r in srecs if r["c"]["kind"] == "sdedup" and r["obs"][2]["err"] == "none" and r["c"]["ga"]["w"] <= 2048
+                    and len(r["obs"][2]["i1"]) >= 2), None)
+    nscale = len(srecs)
+    del srecs
     # 3. larger seeded cases, code -> spec
     ns, max1, max2 = B["seeded"]
     pools = {k: [v[key] for key in sorted(v)] for k, v in pools.items()}
@@ -443,6 +607,15 @@ def run(ctx):
     good3 = next(o for o in dprobe["obs"] if o["fn"] == "rem_dup")
     bad3 = dict(good3); bad3["i1"] = bad3["i1"] + [bad3["i1"][0]]
     badrep = dict(dprobe["reps"][0], l1="list")               # python lists are not in the de-duplication quantifier
+    if sprobe is None or dsprobe is None:
+        raise MachineryError("no scale probe record for the binding self-test")
+    so = sprobe["obs"][0]
+    e0 = so["rle"][0]
+    # blocks out of order (what a result sorted by value looks like), and one index returned twice
+    sbad1 = dict(so, nrle=so["nrle"] + 1, rle=[dict(e0, b0=e0["b0"] + 1, cnt=e0["cnt"] - 1), dict(e0, cnt=1)] + so["rle"][1:])
+    sbad2 = dict(so, rle=[dict(e0, i1=e0["i1"][::-1], i2=e0["i2"][::-1])] + so["rle"][1:])
+    dgood = dsprobe["obs"][2]
+    dbad = dict(dgood, i1=dgood["i1"] + [dgood["i1"][0]])
     saved = ctx.traces
     rej = tracecheck.validate(ctx, "ArrayMatchTrace.tla",
                               [{"id": 1, "c": probe["c"], "reps": probe["reps"], "obs": [bad1]},
@@ -450,12 +623,18 @@ def run(ctx):
                                {"id": 3, "c": probe["c"], "reps": probe["reps"], "obs": [bad2]},
                                {"id": 4, "c": dprobe["c"], "reps": dprobe["reps"], "obs": [bad3]},
                                {"id": 5, "c": dprobe["c"], "reps": dprobe["reps"], "obs": [good3]},
-                               {"id": 6, "c": dprobe["c"], "reps": [badrep], "obs": [good3]}],
+                               {"id": 6, "c": dprobe["c"], "reps": [badrep], "obs": [good3]},
+                               {"id": 7, "c": sprobe["c"], "reps": sprobe["reps"], "obs": [sbad1]},
+                               {"id": 8, "c": sprobe["c"], "reps": sprobe["reps"], "obs": [sbad2]},
+                               {"id": 9, "c": sprobe["c"], "reps": sprobe["reps"], "obs": [so]},
+                               {"id": 10, "c": dsprobe["c"], "reps": dsprobe["reps"], "obs": [dbad]},
+                               {"id": 11, "c": dsprobe["c"], "reps": dsprobe["reps"], "obs": [dgood]}],
                               what="self-test: corrupted records rejected", workers=1)
     ctx.traces = saved
     want = {1: [[1, "match", "not_ordered_by_second_array"]], 3: [[1, "match", "matching_element_missing"]],
-            4: [[1, "rem_dup", "not_one_index_per_value"]]}
-    # (records 2 and 5 are the untouched observations: rejected only if the real code is wrong there)
+            4: [[1, "rem_dup", "not_one_index_per_value"]], 7: [[1, so["fn"], "not_ordered_by_second_array"]],
+            8: [[1, so["fn"], "not_ordered_by_second_array"]], 10: [[1, "rem_dup", "not_one_index_per_value"]]}
+    # (records 2, 5, 9, 11 are the untouched observations: rejected only if the real code is wrong there)
     if any(rej.get(k) != v for k, v in want.items()) or not any(cl == "bad_representation" for _, _, cl in rej.get(6, [])):
         raise MachineryError("binding self-test failed: %s" % rej)
     frame_bad, ncalls = state["frame_bad"], state["ncalls"]
@@ -466,23 +645,39 @@ def run(ctx):
                 "representations of a covering design enumerated by the model (element type of each argument - %d admitted "
                 "(type, type, placement) combinations for match, %d flag types x 4 placements - x byte order x layout / "
                 "container form; every admitted combination of two of these choices is met) and called as match / match_multi "
-                "(+presorted when a1 is sorted) or unique / rem_dup (+values=True); plus %d seeded cases up to %d x %d; a case "
+                "(+presorted when a1 is sorted) or unique / rem_dup (+values=True); plus %d seeded cases up to %d x %d; plus %d "
+                "scale cases designed by the model (dense first arrays of 33..256 / 8193..65536 distinct values spanning a narrow "
+                "integer type, and of 5..50021 values in 32/64-bit and float types, against periodic second arrays of %s elements of "
+                "the same and wider types; generated arrays of %s elements for unique / rem_dup), judged through the laws "
+                "LinearAgrees / ConcatLaw / BlockJudgeAgrees / GenDedupAgrees that TLC proves on the small scope; a case "
                 "is distinct by its abstract record and non-trivial always" %
                 (E["MaxLen1"], len(E["A1Vals"]), E["MaxLen2"], len(E["A2Vals"]), E["RepLen2"], E["MaxLenD"], len(E["DVals"]),
-                 len(E["FVals"]), E["NReps"], len(design["pairs"]), len(design["flags"]), ns, max1, max2))
+                 len(E["FVals"]), E["NReps"], len(design["pairs"]), len(design["flags"]), ns, max1, max2, nscale,
+                 sorted(B["scale"]["ScaleN2"]), sorted(B["scale"]["ScaleND"])))
     ctx.exhaustive = True
-    ctx.note(bounds={t: {k: sorted(v) if isinstance(v, set) else v for k, v in B[t].items()} for t in ("export", "mech")},
-             exported_cases=state["exported"], real_calls=ncalls,
+    ctx.note(bounds={t: {k: sorted(v) if isinstance(v, set) else v for k, v in B[t].items()} for t in ("export", "mech", "scale", "laws")},
+             exported_cases=state["exported"], real_calls=ncalls, scale_cases=nscale, scale_guard={k: sorted(v) if isinstance(v, set) else v
+                                                                                                 for k, v in guard.items()},
              representation_choices={k: sorted(v) if k != "pairs" else len(v) for k, v in design.items()},
              arguments_modified_by_calls=frame_bad)
     ctx.assumptions = ["abstract values are realised by strictly increasing injections (checked for every case on the exact values and "
                        "against numpy's own ordering at start): match/unique/rem_dup depend on order and equality only",
                        "64-bit unsigned with signed integers (numpy compares them through float64), byte with unicode strings, "
                        "large integers with floats, NaN and empty arrays are outside the quantifier",
-                       "python lists and scalars are arguments of match only; the de-duplication helpers are given 1-d arrays"]
+                       "python lists and scalars are arguments of match only; the de-duplication helpers are given 1-d arrays",
+                       "large cases are decided from small ones by laws of the specification (matching distributes over concatenation "
+                       "of the second array; the clauses in linear / counting form), each checked by TLC against the clauses of the "
+                       "statement on the small scope; the large second arrays are periodic, the large inputs of unique / rem_dup cyclic "
+                       "or in runs"]
 
 
 def replay(ctx, case):
+    if case.get("kind") == "scale":
+        rec = run_scale_case((1, case["c"]))
+        for o, e in zip(rec["obs"], rec["exc"]):
+            print("replay observed:", {k: (v if not isinstance(v, list) else v[:3]) for k, v in o.items()}, e)
+        judge_scale(ctx, [rec], "replay")
+        return
     rec = run_case((1, case["c"], case["K"], case["reps"]))
     for o, w, e in zip(rec["obs"], rec["who"], rec["exc"]):
         print("replay observed:", o, "by", [R.rep_tag(case["reps"][j]) for j in w[:3]], e)
